@@ -421,3 +421,45 @@ Proof.
   split; [intros j q Hj Hq; destruct j as [|[|j]]; [| |lia]; (destruct q as [|q]; [reflexivity | lia])|].
   split; [vm_compute|]; reflexivity.
 Qed.
+
+(** cross maps and OHV tables for ANY number of parents (the factories are driven with 1, 2, 3 and 4).
+    The cross map of k parents lists exactly the index tuples of length k below n that increase strictly (unique parents) /
+    do not decrease; for two parents it is the pair map above and the k-parent table is the two-parent table *)
+Theorem C05_cross_map_tuples : forall unique n k l,
+  In l (xmap_def unique n k) <-> (length l = k /\ chain unique 0 l /\ Forall (fun i => (i < n)%nat) l).
+Proof. exact xmap_def_spec. Qed.
+Print Assumptions C05_cross_map_tuples.
+Theorem C05_cross_map_two_parents : forall n, xmap_def true n 2 = pairs_unique n /\ xmap_def false n 2 = pairs_any n.
+Proof. exact xmap_def_two. Qed.
+Print Assumptions C05_cross_map_two_parents.
+Theorem C05_ohv_table_two_parents : forall hap u bounds n t unique, ohvmat_defk hap u bounds n t 2 unique = ohvmat_def hap u bounds n t unique.
+Proof. exact ohvmat_defk_two. Qed.
+Print Assumptions C05_ohv_table_two_parents.
+(** every parent of the cross counts: an entry of the OHV row of a parent list is at least ploidy * (sum over the blocks of the
+    block value) of ANY phase of ANY parent in the list - first, last or in between *)
+Theorem C05_ohv_every_parent_counts : forall H nb nt parents Hp i q, In Hp H -> In i parents -> (q < nt)%nat ->
+  nq (length H) * sumf (fun b => hget Hp i b q) (seq 0 nb) <= nth q (ohv_row H nb nt parents) 0.
+Proof. exact ohv_row_dominates. Qed.
+Print Assumptions C05_ohv_every_parent_counts.
+(** the table on a cross map is, row by row and trait by trait, the expression of the CURRENT _calc_ohvmat
+    (Gen/C05_Kernel.v: ploidy * haplomat[:, xconfig, :, :].max((0, 2)).sum(1), xconfig = all columns of the cross-map rows)
+    applied to the block values of every phase and every parent of the row *)
+Theorem C05_kernel_ohv_table : forall hap u bounds n t xmap,
+  ohvmat_on hap u bounds n t xmap
+  = map (fun parents => map (fun q => k_ohv maxl qsum (nq (length hap))
+           (map (fun b => flat_map (fun Hp => map (fun i => hget Hp i b q) parents) (haploval hap u bounds n t)) (seq 0 (length bounds)))) (seq 0 t)) xmap.
+Proof. exact ohvmat_on_kernel. Qed.
+Print Assumptions C05_kernel_ohv_table.
+
+(** hypotheses met by a three-way cross whose MIDDLE parent alone carries the best haplotype of the second block:
+    one phase, three taxa, two blocks, one trait; block values  taxon 0: (1, 0), taxon 1: (0, 5), taxon 2: (0, 0) *)
+Example C05_ohv_hyps_satisfiable :
+  let H := [[[[1]; [0]]; [[0]; [5]]; [[0]; [0]]]] in
+  In [0; 1; 2]%nat (xmap_def true 3 3) /\ (length [0; 1; 2]%nat = 3%nat /\ chain true 0 [0; 1; 2]%nat /\ Forall (fun i => (i < 3)%nat) [0; 1; 2]%nat)
+  /\ In (nth 0 H []) H /\ In 1%nat [0; 1; 2]%nat /\ (0 < 1)%nat
+  /\ ohv_row H 2 1 [0; 1; 2]%nat = [6] /\ ohv_row H 2 1 [0; 2]%nat = [1]
+  /\ nq (length H) * sumf (fun b => hget (nth 0 H []) 1 b 0) (seq 0 2) == 5.
+Proof.
+  cbv zeta. split; [vm_compute; tauto|]. split; [repeat split; cbn; try lia; repeat constructor|].
+  split; [now left|]. split; [cbn; tauto|]. split; [lia|]. split; [vm_compute; reflexivity|]. split; vm_compute; reflexivity.
+Qed.
